@@ -413,6 +413,59 @@ fn repo_file_case(t: &mut Tape, w: &Worker) -> CaseResult {
     Ok(out)
 }
 
+/// hand-built minimal reproductions of every crash that was found and repaired (stable regression tier,
+/// independent of the generators' tape layout)
+fn regress_inputs() -> Vec<(&'static str, Vec<u8>, Vec<&'static str>)> {
+    let mut v: Vec<(&'static str, Vec<u8>, Vec<&'static str>)> = vec![];
+    v.push(("empty input", vec![], vec!["check", "sanity"]));
+    v.push(("3 bytes", vec![7, 0x40, 0], vec!["view", "rdh"]));
+    // layer 7 on the second packet
+    let mk = |fee: u16, page: u16, stop: u8, words: Vec<Word>, fmt: u8| {
+        let mut p = Packet::new(Rdh { fee_id: fee, pages_counter: page, stop_bit: stop, format_word: fmt as u64, ..Rdh::default() });
+        p.words = words;
+        p.fix_sizes();
+        p.encode()
+    };
+    let mut a = mk(fee_id(0, 0, 1), 0, 0, vec![], 2);
+    a.extend(mk(0x7001, 1, 1, vec![], 2));
+    v.push(("layer 7 in view", a.clone(), vec!["view", "its-readout-frames"]));
+    v.push(("layer 7 in stave check", a, vec!["check", "all", "its-stave"]));
+    // data word while no frame is open: first TDH has continuation = 1
+    let t = TdhF { trigger_type: 0x6A03 & 0xFFF, internal: true, no_data: false, continuation: true, bc: 0, orbit: 0 };
+    let b = mk(fee_id(0, 0, 1), 0, 0, vec![ihw(7), tdh(&t), data_word(0x20, &[0xA0, 1, 0xB0, 0, 0, 0, 0, 0, 0]), tdt(0, 0, true, false, false)], 2);
+    v.push(("data outside frame", b, vec!["check", "all", "its-stave"]));
+    // outer barrel lane with zeros only
+    let t2 = TdhF { continuation: false, ..t };
+    let c = mk(fee_id(5, 0, 1), 0, 0, vec![ihw(0x0FFF_FFFF), tdh(&t2), data_word(0x40, &[0; 9]), tdt(0, 0, true, false, false)], 2);
+    v.push(("OB lane without chip header", c, vec!["check", "all", "its-stave"]));
+    // IB lane 14 (invalid id 0x2E) announcing fatal, then a frame with a matching lane count
+    let f1 = vec![
+        ihw(0x0FFF_FFFF), tdh(&t2),
+        data_word(0x20, &[0xA0, 1, 0xB0, 0, 0, 0, 0, 0, 0]), data_word(0x21, &[0xA1, 1, 0xB0, 0, 0, 0, 0, 0, 0]),
+        data_word(0x2E, &[0xF4, 0, 0, 0, 0, 0, 0, 0, 0]), tdt(0, 0, true, false, false),
+        tdh(&t2), data_word(0x20, &[0xA0, 1, 0xB0, 0, 0, 0, 0, 0, 0]), data_word(0x21, &[0xA1, 1, 0xB0, 0, 0, 0, 0, 0, 0]),
+        tdt(0, 0, true, false, false),
+    ];
+    v.push(("IB fatal lane >= 9", mk(fee_id(0, 0, 1), 0, 0, f1, 2), vec!["check", "all", "its-stave"]));
+    v
+}
+
+fn regress_case(i: u64, w: &Worker) -> CaseResult {
+    let all = regress_inputs();
+    let (name, bytes, args) = &all[i as usize % all.len()];
+    let stdin = (i as usize / all.len()) % 2 == 1;
+    let mut case = CliCase::new(w, bytes.clone());
+    let cmd = Cmd { args: args.iter().map(|s| s.to_string()).collect(), stdin, e_code: None, label: format!("regress:{name}"), writes_data_stdout: false };
+    let (spec, o) = run_cmd(&mut case, &cmd);
+    judge(&mut case, &cmd, &spec, &o)?;
+    let mut out = CaseOut::default();
+    out.labels.push(format!("regress:{name}"));
+    out.nontrivial = true;
+    out.fingerprint = fnv64(bytes) ^ i;
+    out.execs = case.execs;
+    Ok(out)
+}
+
 pub fn build() -> Property {
     Property {
         id: "C04",
@@ -427,6 +480,11 @@ pub fn build() -> Property {
             "time bound: only the coarse hang rule (60 s for <= 16 MB inputs) is judged".into(),
         ],
         phases: vec![
+            Phase {
+                name: "regress_fixed_crashes",
+                kind: PhaseKind::Enum { n: (14, 14), exhaustive: (false, false), f: Box::new(regress_case) },
+                threads: 4,
+            },
             Phase {
                 name: "cli_generated",
                 kind: PhaseKind::Gen {
